@@ -39,7 +39,7 @@ def check(ctx):
                 "lines, per connection) is validated by TLC against ProducerTrace.tla, which infers the unlogged write outcomes. "
                 "One evaluation = one script run; non-trivial = the script holds a fault; distinct by (script, retry limit, protocol).")
     ctx.assumptions += ["faults fall between messages (the hand-over channel is unbuffered) and 2-3 ms are left for FIN / RST to travel on loopback",
-                        "Kafka (sarama) is exercised at the boundary to the client library (a scripted sarama.AsyncProducer); NSQ with the real go-nsq client against a scripted nsqd (TCP protocol); NATS and kafka-segmentio are not exercised: nothing is claimed about them"]
+                        "Kafka (sarama) is exercised at the boundary to the client library (a scripted sarama.AsyncProducer); NSQ with the real go-nsq client against a scripted nsqd (TCP protocol); NATS with the real nats.go client against a real embedded nats-server; kafka-segmentio is not exercised: nothing is claimed about it"]
     n = 6
     for r in (0, 1, 2):
         ctx.tlc_model("Producer", "mc.cfg", files={"mc.cfg": MC_CFG % dict(n=n, r=r, f=2, bug="FALSE", stalls="TRUE", props="BoundedGap Terminates")}, workers=8)
@@ -170,6 +170,7 @@ def check(ctx):
             break
     kafka(ctx, thorough)
     nsq(ctx, thorough)
+    nats(ctx, thorough)
     ok_case = next((c, r) for c, r in zip(cases, res) if c["script"] and not r.get("hung"))
     ctx.sample({"script": ok_case[0]["script"], "maxretry": ok_case[0]["maxretry"], "events": ok_case[1]["events"]})
     # binding self-test: a duplicated delivery and a reordered one must be rejected
@@ -287,9 +288,82 @@ def nsq(ctx, thorough):
                       "resumes after a failure)" % (c["script"], c["n"], end.get("delivered"), end.get("errcount")),
                       {"case": c, "result": r1}, key="nsq:order-dup-gap")
         break
+    st = [{"ev": "reset", "m": 0, "delivered": [], "errcount": 0}] + [{"ev": "hand", "m": k, "delivered": [], "errcount": 0} for k in (1, 2, 3)]
+    for nm, dl, ec in (("duplicate delivery", [1, 2, 2, 3], 0), ("reordered delivery", [2, 1, 3], 0), ("a message lost without a fault", [1, 3], 1)):
+        o2 = ctx.tlc("ProducerNSQTrace", "ProducerNSQTrace.cfg", workers=1, files={"trace.ndjson": "".join(json.dumps(x) + "\n" for x in st + [{"ev": "end", "m": 0, "delivered": dl, "errcount": ec}])})
+        if "REJECTED-AT-LINE" not in o2.out:
+            raise vlib.Infra("binding self-test failed: NSQ trace with %s accepted" % nm)
+        ctx.binding_selftests.append({"backend": "nsq", "corrupt": nm, "rejected": True})
     ctx.extra["nsq_scripts"] = len(cases)
     ctx.extra["nsq_examples"] = [{"script": c["script"], "delivered": (r.get("events") or [{}])[-1].get("delivered"),
                                   "errcount": (r.get("events") or [{}])[-1].get("errcount")} for c, r in list(zip(cases, res))[:40:3]]
+
+
+NATS_CFG = """SPECIFICATION Spec
+CONSTANTS N = 5
+ MaxFaults = 2
+ InFlight = 5
+ Redeliver = %s
+INVARIANTS InOrderNoDup NothingBeforeHandover BoundedLoss
+PROPERTIES EverythingArrives
+CHECK_DEADLOCK FALSE
+"""
+
+
+def nats(ctx, thorough):
+    """the NATS back end: the real inputMsg and the real nats.go client against a real embedded nats-server"""
+    ctx.tlc_model("ProducerNATS", "t.cfg", files={"t.cfg": NATS_CFG % "FALSE"}, workers=4)
+    ctx.tlc_must_fail("ProducerNATS", "td.cfg", files={"td.cfg": NATS_CFG % "TRUE"}, expect="BoundedLoss", workers=4)
+    drv = ctx.go_build_test("producer", ["producer/rawsocket_verif_test.go", "producer/nats_verif_test.go"])
+    d = ctx.subdir("c14t")
+    n = 8
+    scripts = [[]] + [[["bounce", k]] for k in ((1, 2, 5, 8, 9) if not thorough else range(1, n + 2))] + [[["bounce", 3], ["bounce", 6]]]
+    cases = [{"id": i, "n": n, "script": s} for i, s in enumerate(scripts)]
+    cin, cout = os.path.join(d, "cases.ndjson"), os.path.join(d, "out.ndjson")
+    vlib.write_ndjson(cin, cases)
+    rc, log, to = ctx.go_run(drv, "TestVerifNATSScripts", env={"VERIF_CASES": cin, "VERIF_OUT": cout}, timeout=600)
+    if rc != 0 or to:
+        if ("panic" in log or "fatal error" in log) and "producer/nats.go" in log:
+            ctx.violation("the NATS producer crashed: " + re.search(r"(panic:[^\n]*|fatal error:[^\n]*)", log).group(1), {"log": log[-3000:]}, key="nats:crash")
+            return
+        raise vlib.Infra("nats driver failed:\n" + log[-2000:])
+    res = vlib.read_ndjson(cout)
+    rows, index = [], []
+    for c, r in zip(cases, res):
+        ctx.count(["nats", c["script"]], nontrivial=bool(c["script"]))
+        if r.get("infra"):
+            raise vlib.Infra("nats driver could not set up a scenario: " + r["infra"])
+        if r.get("hung"):
+            ctx.violation("NATS producer stopped taking messages (server bounced before %s)" % [x[1] for x in c["script"]], {"case": c}, key="nats:hung")
+            continue
+        if r.get("garbage"):
+            ctx.violation("the NATS subscriber received a message with other octets than handed over", {"case": c, "result": r}, key="nats:garbage")
+            continue
+        rows.append({"ev": "reset", "m": 0, "delivered": []})
+        index.append((c, r))
+        for e in r["events"]:
+            rows.append({"ev": e["ev"], "m": e.get("m", 0), "delivered": e.get("delivered") or []})
+            index.append((c, r))
+    out = ctx.tlc("ProducerNATSTrace", "ProducerNATSTrace.cfg", workers=1, timeout=600, files={"trace.ndjson": "".join(json.dumps(x) + "\n" for x in rows)})
+    ctx.states += out.distinct
+    ctx.transitions += out.generated
+    m = re.search(r'"REJECTED-AT-LINE", (\d+)', out.out)
+    if m:
+        c, r = index[int(m.group(1)) - 1]
+        ctx.violation("NATS producer, server bounced before message(s) %s: handed over messages 1..%d, the subscriber received %s - not a "
+                      "behaviour of ProducerNATS.tla (in order, no duplicates, unmodified, nothing lost except what the library held when the server went away)"
+                      % ([x[1] for x in c["script"]], c["n"], r["events"][-1].get("delivered")), {"case": c, "result": r}, key="nats:order-dup-loss")
+    elif out.status != "ok":
+        raise vlib.Infra("ProducerNATSTrace ended unexpectedly: %s\n%s" % (out, out.out[-1200:]))
+    else:
+        ctx.traces_validated += len(cases)
+    st = [{"ev": "reset", "m": 0, "delivered": []}] + [{"ev": "hand", "m": k, "delivered": []} for k in (1, 2, 3)]
+    for nm, dl in (("duplicate delivery", [1, 2, 2, 3]), ("reordered delivery", [2, 1, 3]), ("two messages lost without an outage", [3])):
+        o2 = ctx.tlc("ProducerNATSTrace", "ProducerNATSTrace.cfg", workers=1, files={"trace.ndjson": "".join(json.dumps(x) + "\n" for x in st + [{"ev": "end", "m": 0, "delivered": dl}])})
+        if "REJECTED-AT-LINE" not in o2.out:
+            raise vlib.Infra("binding self-test failed: NATS trace with %s accepted" % nm)
+        ctx.binding_selftests.append({"backend": "nats", "corrupt": nm, "rejected": True})
+    ctx.extra["nats_examples"] = [{"script": c["script"], "delivered": (r.get("events") or [{}])[-1].get("delivered"), "errcount": r.get("errcount")} for c, r in zip(cases, res)]
 
 
 def kafka(ctx, thorough):
